@@ -48,7 +48,7 @@ def gen_case(rng):
     fam = rng.choice(["3d", "3d", "3d", "ca3d", "cubeset", "ca0th", "numeric", "single", "augment"])
     if fam == "3d":
         kinds = [rng.choice(T_KINDS), rng.choice(RC_KINDS), rng.choice(RC_KINDS)]
-        case = sc.gen_case(rng, kinds=kinds, max_n=3)
+        case = sc.gen_case(rng, kinds=kinds, max_n=3, derived_items=rng.random() < 0.4)
         if rng.random() < 0.5:
             vs = [gen.Var.from_json(d) for d in case["vars"]]
             tot = 1
@@ -66,6 +66,27 @@ def gen_case(rng):
         case = sc.gen_case(rng, kinds=kinds, max_n=3)
     elif fam == "ca0th":
         case = sc.gen_case(rng, kinds=["ca", rng.choice(RC_KINDS)], max_n=3)
+        if rng.random() < 0.6:
+            # transforms on the categories (the ROWS of every strand / slice of a CA-as-0th set) that differ from the
+            # ones filed under the columns dimension
+            ca = gen.Var.from_json(case["vars"][0])
+            cv = gen.Var("cat", ca.alias, cats=copy.deepcopy(ca.cats))
+            ids = sc.valid_ids(cv)
+
+            def dim(p_hide):
+                d = {}
+                el = {str(i): {"hide": True} for i in ids if rng.random() < p_hide}
+                if el and len(el) < len(ids):
+                    d["elements"] = el
+                ins = sc.gen_insertions(rng, cv, allow_diff=False, allow_hide=False)
+                if ins:
+                    d["insertions"] = ins
+                if rng.random() < 0.3 and ids:
+                    l = list(ids)
+                    rng.shuffle(l)
+                    d["order"] = {"type": "explicit", "element_ids": l}
+                return d
+            case["ca0_transforms"] = {"rows": dim(0.3), "other": dim(0.4)}
     elif fam == "augment":
         # single-column filter cube with fewer rows than the summary cube: padded with zero rows
         n = rng.randint(2, 5)
@@ -311,7 +332,10 @@ def evaluate(case, louts, ctx):
         ca, X = vars_
         r0 = gen.cube_response([ca], [(wt, [ans[0]]) for wt, ans in survey], w)
         r1 = gen.cube_response([ca, X], survey, w)
-        cs = CubeSet([copy.deepcopy(r0), copy.deepcopy(r1)], [None, None], pop, 0)
+        ct = case.get("ca0_transforms")
+        t0 = {"rows_dimension": copy.deepcopy(ct["rows"]), "columns_dimension": copy.deepcopy(ct["other"])} if ct else None
+        t1 = {"rows_dimension": copy.deepcopy(ct["rows"])} if ct else None
+        cs = CubeSet([copy.deepcopy(r0), copy.deepcopy(r1)], [copy.deepcopy(t0), copy.deepcopy(t1)], pop, 0)
         npart = len(ca.valid_item_pos)
         psets = common.call_impl(lambda: len(cs.partition_sets))
         if psets != npart:
@@ -322,10 +346,12 @@ def evaluate(case, louts, ctx):
                 strand, sl = cs.partition_sets[k]
                 cv = gen.Var("cat", ca.alias, cats=copy.deepcopy(ca.cats))
                 kk = ca.valid_item_pos[k]
-                uni = Cube(gen.cube_response([cv], [(wt, [[ans[0][kk]]]) for wt, ans in survey], w), population=pop).partitions[0]
+                uni = Cube(gen.cube_response([cv], [(wt, [[ans[0][kk]]]) for wt, ans in survey], w),
+                           transforms=copy.deepcopy(t1), population=pop).partitions[0]
                 ms = [m for m in STRAND_MEASURES]
                 _compare_parts(findings, "ca0th.strand", strand, uni, ms, "sub-variable %d" % k)
-                c2 = Cube(gen.cube_response([cv, X], [(wt, [[ans[0][kk]], ans[1]]) for wt, ans in survey], w), population=pop)
+                c2 = Cube(gen.cube_response([cv, X], [(wt, [[ans[0][kk]], ans[1]]) for wt, ans in survey], w),
+                          transforms=copy.deepcopy(t1), population=pop)
                 _compare_parts(findings, "ca0th.slice", sl, c2.partitions[0],
                                [m for m in SLICE_MEASURES if m != "population_counts"], "sub-variable %d" % k)
                 firsts.append(repr(_get(strand, "counts")))
